@@ -231,6 +231,20 @@ let handlers : (string * (string list -> string -> verdict)) list = [
       let (outs, total) = go t0 (split_on ',' ops) [] 0 in
       { model = S.concat "," outs ^ " total=" ^ string_of_int total; spec_ok = None; nontrivial = L.length outs > 2 }
     | _ -> failwith "args");
+  "can_get", (fun args impl -> match args with
+    | [a] ->
+      let acc = (match S.split_on_char ':' a with
+        | ["err"; d] -> Access.AErr (d = "1")
+        | ["res"; g; call] -> Access.AResult (g = "1", chars_of_string (unhex call))
+        | _ -> failwith "can_get") in
+      let m = (match Access.can_get acc with Access.Granted -> "granted" | Access.Refused e -> "refused:" ^ bool_s e) in
+      { model = m; spec_ok = None; nontrivial = true }
+    | _ -> failwith "args");
+  "expand_cid", (fun args impl -> match args with
+    | [rid; cid] ->
+      let m = Access.expand (chars_of_string (unhex rid)) (chars_of_string (unhex cid)) in
+      { model = hex (string_of_chars m); spec_ok = None; nontrivial = (unhex impl <> unhex rid) }
+    | _ -> failwith "args");
 ]
 
 let pure_main () =
